@@ -250,13 +250,17 @@ def check_walk(ctx, obs):
         # exact -(1/n) dn/dtheta by a 60-digit central difference (eta = 1e-15: truncation ~1e-30)
         theta_min = 12 * DEG
         fold = math.acos(min(1.0, abs(float(rot(ct, cp, d)[2])))) if n[0] == n[1] else None
-        if abs(float(ct)) < theta_min - 1e-12:
-            continue          # step width eps^(1/3)·|theta| too small for a 1e-6 statement; finiteness was checked
         if n[0] == n[1]:
+            # the property's domain: optic axis 12..90 deg from the BEAM (not from lab z): a tilted beam is in the domain whatever the
+            # crystal angle is, including small non-zero crystal angles where the relative step eps^(1/3)|theta| collapses
             if not (theta_min - 1e-9 <= fold <= math.pi / 2 + 1e-9):
                 continue
-        elif ex.D < 1e-5:
-            continue          # biaxial: within ~0.1 rad of an optic axis the index has a conical point
+        elif abs(float(ct)) < theta_min - 1e-12 or ex.D < 1e-5:
+            continue          # biaxial: the property states no tolerance; compared away from small angles / the conical points only
+        small = 0 < abs(float(ct)) < 0.05
+        sfx = "_small_crystal_angle" if small else ""
+        why = (f" — crystal theta = {float(ct)!r} is small and non-zero: derivative_at's relative step eps^(1/3)|theta| = "
+               f"{6.0555e-6 * abs(float(ct)):.1e} rad collapses and rounding swamps the difference quotient") if small else ""
         eta = Decimal(10) ** -15
         np_, _ = model_index(n, ct + Fraction(1, 10**15), cp, d, o["pol"])
         nm_, _ = model_index(n, ct - Fraction(1, 10**15), cp, d, o["pol"])
@@ -267,8 +271,12 @@ def check_walk(ctx, obs):
             biaxial_goals.append(o)
         if abs(rho - expect) > 1e-6:
             ctx.violation("S5", f"{o['id']}: walkoff_angle {rho!r} differs from atan(-(1/n) dn/dtheta) = {expect!r} by more than 1e-6 rad "
-                          f"(crystal theta {float(ct)!r}, polarization {o['pol']})", {"kind": "walkoff_value", "pol": o["pol"]}, rep)
-        if n[0] == n[1] and o["gen"] in ("pump", "inplane", "orient"):
+                          f"(crystal theta {float(ct)!r}, beam polar angle {fl(o['btheta'])!r}, optic axis {math.degrees(fold) if fold is not None else float('nan'):.1f} deg from the beam, "
+                          f"polarization {o['pol']}){why}", {"kind": "walkoff_value" + sfx, "pol": o["pol"]}, rep)
+            if small:
+                ctx.count("walkoff_small_angle_violation")
+        inplane = o["gen"] in ("pump", "inplane", "orient") or (o["gen"] == "smalltheta" and (abs(fl(o["bphi"])) < 1e-9 or abs(fl(o["bphi"]) - math.pi) < 1e-9))
+        if n[0] == n[1] and inplane:
             # property's closed form: theta measured from the optic axis; beam in the x-z plane
             bphi = fl(o["bphi"])
             th = float(ct) + fl(o["btheta"]) * (1.0 if abs(bphi) < 1e-9 else -1.0)
@@ -282,7 +290,7 @@ def check_walk(ctx, obs):
             rep["closed_form_rad"] = closed
             if abs(rho - closed) > 1e-6:
                 ctx.violation("S5", f"{o['id']}: walkoff_angle {rho!r} differs from the uniaxial closed form {closed!r} by more than 1e-6 rad "
-                              f"(angle from the optic axis {th!r} rad, polarization {o['pol']})", {"kind": "walkoff_closed_form", "pol": o["pol"]}, rep)
+                              f"(angle from the optic axis {th!r} rad, crystal theta {float(ct)!r}, polarization {o['pol']}){why}", {"kind": "walkoff_closed_form" + sfx, "pol": o["pol"]}, rep)
             if o["gen"] in ("pump", "orient") and o["pol"] == dep:
                 goals.append((o, th))
     ctx.biaxial_walk = biaxial_goals
@@ -404,9 +412,9 @@ def run(ctx):
     for m in msgs:
         ctx.proof_failures.append(("Gen/Fresnel.v", "translator", m))
     proved = (not msgs) and prove(ctx, "C02", extra_targets=["Proofs/C02_case.vo"])
-    okf, _, _ = coq_build(ctx, ["Findings/C02_imaginary_index.vo"])
+    okf, _, _ = coq_build(ctx, ["Findings/C02_imaginary_index.vo", "Findings/C02_walkoff_small_angle.vo"])
     if not okf:
-        ctx.note("Findings/C02_imaginary_index.v no longer compiles")
+        ctx.note("a Findings/C02_*.v file no longer compiles")
     quick = ctx.tier == "quick"
     n_dir, n_walk, budget = (6, 3, 80) if quick else (40, 10, 330)
     obs = run_harness(ctx, binp, ["c02", ctx.seed, n_dir, n_walk])
@@ -443,7 +451,7 @@ def run(ctx):
                        "reversed / principal-plane-mirrored images; pump along z; rings of 1e-2..1e-9 rad around both optic axes (crystal frame, mapped "
                        "back to the lab) and around the principal planes; natural near-axis set-ups (pump along z with the crystal tilted to the optic "
                        "axis +- delta, small-angle beams in an untilted uniaxial crystal); exact axes; walk-off for pump / in-plane / general beams at "
-                       "12..90 deg and for every orientation class (0, tiny, negative, > 90 deg, near optic axes).  distinct = distinct input bits")
+                       "12..90 deg, tilted beams at small non-zero crystal angles 1e-2..1e-9 rad and exactly 0 (optic axis still 12..90 deg from the beam), and every orientation class (0, tiny, negative, > 90 deg, near optic axes).  distinct = distinct input bits")
     ctx.cov["clauses"] = {
         "ordinary = slow, extraordinary = fast Fresnel solution": "proved for the generated index_along over R (all positive indices, all angles, all unit directions); binary64: measured (1e-12 away from optic axes, conditioning-scaled next to them)",
         "finite, positive": "proved over R for every answer of the quadratic solver incl. `no real root` (C02_index_along_any_solver_answer; F2 fixed in 2b77618); binary64 validated on near-axis rings every run",
